@@ -6,7 +6,7 @@ Import ListNotations.
 Open Scope N_scope.
 
 (** Views that tachys renders exactly like a view of the grammar are decoded to that view
-    (the correspondence check compares them with the real types): [Vec<T>] = its items followed
+    (the correspondence check compares them with the real types): [Vec<T>] and a keyed list = their items followed
     by the unit view (the [<!>] end marker, position NextChild); [Option]: [Some v] = [v],
     [None] = unit; [Either*]/[Result::Ok]/[OwnedView]/[View]/[[T; 1]] = their content; non-empty
     arrays / [StaticVec] / [Fragment] = the tuple of their items; [&str], [Cow], [Arc<str>],
@@ -30,6 +30,7 @@ Fixpoint view_of (s : sexp) : view :=
       | 6%Z, [t] => VRawSync (as_bytes t)
       | 7%Z, [f; c] => VRawAsync (as_N f) (view_of c)
       | 8%Z, _ => VTuple (go rest ++ [VTuple []])
+      | 29%Z, _ => VTuple (go rest ++ [VTuple []])
       | 9%Z, [c] => view_of c
       | 15%Z, [_; c] => view_of c
       | 16%Z, _ :: cs => VTuple (go cs)
